@@ -7,3 +7,8 @@ open WebPkg.C20
 #print axioms gen_bundle_output_wellFormed
 #print axioms gen_certurl_accepted
 #print axioms integrity_block_keeps_bundle
+#print axioms dir_walk_characterisation
+#print axioms dir_walk_each_file_exactly_once
+#print axioms dir_walk_index_html
+#print axioms dir_walk_urls_distinct
+#print axioms dir_walk_length
